@@ -1,4 +1,96 @@
-(* C11 — statements are being added; see DESIGN.md section 7. *)
-From XSG.Model Require Import Strings.
-Example C11_placeholder : True. Proof. exact I. Qed.
-Print Assumptions C11_placeholder.
+(* C11 — Output depends only on document structure, not on incidental detail.
+   Attribute values and text CONTENT are not part of the model's input at all (events / nodes
+   carry names and presence only); that the code never reads them rests on the correspondence
+   (the model predicts the implementation's full internal state from value-free events) and on
+   the metamorphic oracle of bin/check C11.  Proved here, for every parent state and every
+   document:
+   * text and CDATA are interchangeable; comments / PIs / declaration / DOCTYPE can be inserted
+     or removed anywhere; position and multiplicity of character data are irrelevant
+     (`skel` normal form: same skeleton => same resulting tree, hence same rendering under
+     every option value);
+   * `<x/>` and `<x></x>` give the same tree (needs the uniqueness invariant, which the parser
+     maintains: C11_uniq_preserved) — at any depth (`unempty`);
+   * asking the reader to expand empty elements (Empty -> Start;End on the event stream) leaves
+     the result of into_struct / extend_struct unchanged, for EVERY event stream.
+   Buffer sizes are tokenizer behaviour (same event list): validated by execution only.
+   Only statements; every proof is `exact <lemma of Proofs/SkelProofs.v>`. *)
+From XSG.Model Require Import Strings Necessity Element Parser Dom.
+From XSG.Proofs Require Import ElementProofs SkelProofs.
+
+Theorem C11_text_cdata : forall r k, absorb NText r k = absorb NCData r k.
+Proof. exact absorb_text_cdata. Qed.
+
+Theorem C11_misc : forall d r k, absorb (strip_misc d) r k = absorb d r k.
+Proof. exact strip_misc_sound. Qed.
+Theorem C11_misc_anywhere : forall ks1 ks2 r k,
+  absorb_forest (ks1 ++ NMisc :: ks2) r k = absorb_forest (ks1 ++ ks2) r k.
+Proof. exact absorb_forest_misc_anywhere. Qed.
+Theorem C11_misc_forest : forall ks r k,
+  absorb_forest (strip_misc_forest ks) r k = absorb_forest ks r k.
+Proof. exact strip_misc_forest_sound. Qed.
+
+Theorem C11_text_irrelevant : forall ks ks' r k,
+  filter is_elem ks = filter is_elem ks' ->
+  existsb is_chardata ks = existsb is_chardata ks' ->
+  absorb_forest ks r k = absorb_forest ks' r k.
+Proof. exact absorb_forest_text_irrelevant. Qed.
+
+Theorem C11_skeleton : forall d d', skel d = skel d' -> forall r k, absorb d r k = absorb d' r k.
+Proof. exact skeleton_absorb. Qed.
+Theorem C11_skeleton_forest : forall ks ks',
+  skel_forest ks = skel_forest ks' -> forall r k, absorb_forest ks r k = absorb_forest ks' r k.
+Proof. exact skeleton_absorb_forest. Qed.
+
+Theorem C11_uniq_preserved : forall nd r k, Uniq r -> Uniq (fst (absorb nd r k)).
+Proof. exact absorb_Uniq. Qed.
+Theorem C11_uniq_preserved_events : forall f evs root known r rest,
+  Uniq root -> build_struct f evs root known = Ok (r, rest) -> Uniq r.
+Proof. exact build_struct_Uniq. Qed.
+Theorem C11_parse_uniq : forall evs e, into_struct_ev evs = Ok e -> Uniq e.
+Proof. exact into_struct_ev_Uniq. Qed.
+Theorem C11_extend_uniq : forall root evs e, Uniq root -> extend_struct_ev root evs = Ok e -> Uniq e.
+Proof. exact extend_struct_ev_Uniq. Qed.
+
+Theorem C11_emptyform : forall root n attrs ks known,
+  Uniq root ->
+  absorb (NElem n true attrs ks) root known = absorb (NElem n false attrs []) root known.
+Proof. exact emptyform_absorb. Qed.
+Theorem C11_emptyform_deep : forall d r k, Uniq r -> absorb (unempty d) r k = absorb d r k.
+Proof. exact unempty_absorb. Qed.
+
+(* the complete document-level statement *)
+Theorem C11_structure_only : forall d d' r k,
+  Uniq r -> skel (unempty d) = skel (unempty d') -> absorb d r k = absorb d' r k.
+Proof. exact structure_only_absorb. Qed.
+
+(* event level, every stream *)
+Theorem C11_expand_empty_build : forall f evs root known,
+  Uniq root -> (length (expand evs) < f)%nat ->
+  build_struct f (expand evs) root known = map_rest expand (build_struct f evs root known).
+Proof. exact expand_build_struct. Qed.
+Theorem C11_expand_empty : forall evs, into_struct_ev (expand evs) = into_struct_ev evs.
+Proof. exact expand_into_struct_ev. Qed.
+Theorem C11_expand_empty_extend : forall root evs,
+  Uniq root -> extend_struct_ev root (expand evs) = extend_struct_ev root evs.
+Proof. exact expand_extend_struct_ev. Qed.
+Theorem C11_events_of_unempty : forall d, events_of (unempty d) = expand (events_of d).
+Proof. exact events_of_unempty. Qed.
+
+Print Assumptions C11_text_cdata.
+Print Assumptions C11_misc.
+Print Assumptions C11_misc_anywhere.
+Print Assumptions C11_misc_forest.
+Print Assumptions C11_text_irrelevant.
+Print Assumptions C11_skeleton.
+Print Assumptions C11_skeleton_forest.
+Print Assumptions C11_uniq_preserved.
+Print Assumptions C11_uniq_preserved_events.
+Print Assumptions C11_parse_uniq.
+Print Assumptions C11_extend_uniq.
+Print Assumptions C11_emptyform.
+Print Assumptions C11_emptyform_deep.
+Print Assumptions C11_structure_only.
+Print Assumptions C11_expand_empty_build.
+Print Assumptions C11_expand_empty.
+Print Assumptions C11_expand_empty_extend.
+Print Assumptions C11_events_of_unempty.
